@@ -247,7 +247,7 @@ impl<'a> BitVector<'a> {
             return None;
         }
         if !indices.is_empty() {
-            if len < indices[indices.len() - 1] {
+            if len <= indices[indices.len() - 1] {
                 return None;
             }
             for (lhs, rhs) in zip(indices[..indices.len() - 1].iter(), indices[1..].iter()) {
